@@ -31,6 +31,9 @@ BASES = {
     # mixed shear constants with equal axial strains (no lattice block): column orders decide the task-creation order
     "trig": dict(nv=5, nq=2, na=1, lattice="none", system="trigonal7", declare=False, compset="nonzero", static="generic", weights="increasing",
                  qha=dict(T_MIN=0, NT=2, DT=800, DT_SAMPLE=800, NTV=21, DELTA_P=2.0, DELTA_P_SAMPLE=2.0)),
+    # no system requested; c14 crosses zero and is tabulated as exactly 0.00 at the fourth volume (row orders put that row first)
+    "zerocross": dict(nv=5, nq=2, na=1, lattice="power", system=None, compset="full21", static="generic", weights="increasing", zero_entry=[[1, 4], 3],
+                      qha=dict(T_MIN=0, NT=2, DT=800, DT_SAMPLE=800, NTV=21, DELTA_P=2.0, DELTA_P_SAMPLE=2.0)),
     # a dense q-mesh (beyond any chunk size an implementation might use): 300 q-points x 3 modes
     "dense": dict(nv=5, nq=300, na=1, lattice="none", system="cubic", compset="minimal", static="cubicfit", weights="increasing",
                   qha=dict(T_MIN=0, NT=2, DT=900, DT_SAMPLE=900, NTV=21, DELTA_P=2.0, DELTA_P_SAMPLE=2.0)),
@@ -207,7 +210,7 @@ def transformations(name, quick):
 
 
 def explore(ctx):
-    ctx.rule = ("6 base data sets (q-points with coinciding coordinate labels / trigonal table with all 15 non-vanishing columns, no system requested and no lattice block / monoclinic 13 columns / cubic 3 columns / orthorhombic 9 columns with spline interpolation / one whose last q-point repeats the previous one's branches and that has degenerate branches), a dense "
+    ctx.rule = ("7 base data sets (a 21-column table whose c14 is exactly zero at one volume / q-points with coinciding coordinate labels / trigonal table with all 15 non-vanishing columns, no system requested and no lattice block / monoclinic 13 columns / cubic 3 columns / orthorhombic 9 columns with spline interpolation / one whose last q-point repeats the previous one's branches and that has degenerate branches), a dense "
                 "300-q-point set (reversal, rotations, swaps around positions 64/128/256, mode orders at those q-points) and one small set per "
                 "documented interpolator for the volume-block clause; "
                 "re-presentations: all orders of q-points 2..n with weights, mode orders within each q-point (all n! in thorough, "
